@@ -16,7 +16,7 @@ pub fn addr() -> impl Strategy<Value = u32> {
 }
 
 /// a small pool of distinct addresses for histories (index -> address)
-pub const POOL: [u32; 6] = [0x4840D6, 0xA12345, 0x3C6589, 0x000001, 0xFFFFFF, 0x71BC00];
+pub const POOL: [u32; 6] = [0x4840D6, 0x4840D7, 0xA12345, 0x000001, 0xFFFFFF, 0x71BC00];
 
 pub fn fill128() -> impl Strategy<Value = u128> {
     prop_oneof![1 => Just(0u128), 1 => Just(u128::MAX), 6 => any::<u128>()]
@@ -219,15 +219,38 @@ pub fn junk_line() -> BoxedStrategy<Vec<u8>> {
     .boxed()
 }
 
+/// a junk line made of non-hex filler up to a power-of-two byte offset, followed by a complete well-formed frame:
+/// the whole line has an unaccepted digit count, but a reader that cuts lines at that offset would see the frame
+pub fn junk_with_frame_after_offset() -> BoxedStrategy<Vec<u8>> {
+    (proptest::sample::select(vec![4096usize, 8192, 16384, 32768, 65536, 131072]), 0usize..4, any::<u128>(), 1u32..0xFFFFFF)
+        .prop_map(|(cap, k, fill, addr)| {
+            // k hex digits before the offset make the total digit count 28 + k + 2 (never accepted)
+            let f = crate::bits::es(17, 5, addr, ((fill as u64) & ((1u64 << 51) - 1)) | (11u64 << 51));
+            let mut v = vec![b'-'; cap - k - 2];
+            v.extend_from_slice(&b"ABCDEF"[..k + 2]);
+            v.extend_from_slice(f.hex().as_bytes());
+            v
+        })
+        .boxed()
+}
+
 /// very long junk line (64 KiB .. 256 KiB) of non-hex text with a sprinkling of digits, digit count forced to be unaccepted
 pub fn long_junk_line() -> BoxedStrategy<Vec<u8>> {
     (65_536usize..262_144, any::<u8>(), any::<bool>())
         .prop_map(|(n, seed, hexish)| {
-            let mut v = Vec::with_capacity(n + 2);
+            let mut v = Vec::with_capacity(n + 8);
             let mut x = seed as u32 | 1;
             let mut digits = 0usize;
-            for _ in 0..n {
+            // one line in three is sprinkled with multi-byte characters and invalid bytes (so that any fixed byte
+            // offset may fall inside a character)
+            let multibyte = seed % 3 == 0;
+            while v.len() < n {
                 x = x.wrapping_mul(1664525).wrapping_add(1013904223);
+                if multibyte && (x >> 20) % 7 == 0 {
+                    let alt: [&[u8]; 5] = ["é".as_bytes(), "Ж".as_bytes(), "😀".as_bytes(), &[0xFF], &[0xE2, 0x82]];
+                    v.extend_from_slice(alt[(x >> 12) as usize % 5]);
+                    continue;
+                }
                 let b = if hexish { b"0123456789abcdefXYZ ;*"[(x >> 24) as usize % 22] } else { b"ghijklmnopqrstuvwxyz ,;"[(x >> 24) as usize % 23] };
                 if b.is_ascii_hexdigit() { digits += 1; }
                 v.push(b);
